@@ -30,6 +30,24 @@ func (v *VerifQueue) Empty() bool                         { return v.q.Empty() }
 func (v *VerifQueue) SetMaxSegmentSize(size int64) error  { return v.q.SetMaxSegmentSize(size) }
 func (v *VerifQueue) PurgeOlderThan(when time.Time) error { return v.q.PurgeOlderThan(when) }
 func (v *VerifQueue) LimiterLen() int                     { return len(v.q.limiter) }
+
+// TakeTokens takes up to n tokens of the queue's write limiter, as n writers
+// inside Append would, and returns how many it got; ReleaseTokens gives n back.
+func (v *VerifQueue) TakeTokens(n int) int {
+	got := 0
+	for i := 0; i < n; i++ {
+		if v.q.limiter.TryTake() {
+			got++
+		}
+	}
+	return got
+}
+
+func (v *VerifQueue) ReleaseTokens(n int) {
+	for i := 0; i < n; i++ {
+		v.q.limiter.Release()
+	}
+}
 func (v *VerifQueue) SegmentCount() int {
 	v.q.mu.RLock()
 	defer v.q.mu.RUnlock()
